@@ -279,5 +279,11 @@ func (p *c21) judge(s Snip, bash, interp snipFrame) (string, string) {
 			return mon.Held, "@Q-needless-quotes"
 		}
 	}
+	if hasTag(s.Tags, "slice:negative-length") && bash.Stderr && interp.Stderr && !strings.Contains(bash.Out, "|s=") {
+		// both report "substring expression < 0"; under set -u bash 5.2 also
+		// abandons the rest of the snippet, which is about how bash unwinds after an
+		// expansion error (C26), not about what the expansion yields
+		return mon.OutOfDomain, "bash-abandons-the-snippet-after-a-substring-error"
+	}
 	return "", ""
 }
